@@ -1,4 +1,5 @@
 import XmpModel.Basic
+import XmpModel.Gen.OpenSites
 /-!
 # PathSafe — which files and programs a load may touch (property C10)
 
@@ -217,7 +218,7 @@ def unrarArgv (filename : Bytes) : List Bytes :=
 `depacker_list[]`'s tests accepted the header (they are parameters here, modelled
 for C08/C09); `filename`: the argument (`NULL` for FILE/memory/callback entry points). -/
 def decrunchDecision (b : Bytes) (builtin : Bool) (filename : Option Bytes) : Decision :=
-  if b.length < 100 then .notPacked
+  if b.length < Gen.OpenSites.decrunchMinHeader then .notPacked   -- "minimum valid packed file size", generated from the source
   else if builtin then .internal
   else
     let cmd : Option (Bytes → List Bytes) :=
